@@ -439,6 +439,7 @@ def eval_misc(case):
                                        expected_end=DTS[e])
                 entries[f'node{n}'] = (st, DTS[d], DTS[e])
                 mi.add(f'node{n}', ent)
+                given = dict(locals().get('given', {}), **{f'node{n}': ent})      # the caller's own entry objects
 
             def snap(m):
                 return [(k, e.state, getattr(e, 'deadline', None), getattr(e, 'expected_end', None)) for k, e in m.list_details()]
@@ -483,7 +484,9 @@ def eval_misc(case):
                 if entries:
                     other = list(MaintenanceState)[(list(MaintenanceState).index(want[0][1]) + 1) % len(list(MaintenanceState))]
                     for how, fetch in (('get', lambda m: m.get('node0')), ('list_details', lambda m: m.list_details()[0][1]),
-                                       ('iter', lambda m: next(m.iter())[1]), ('copy+get', lambda m: m.copy().get('node0'))):
+                                       ('iter', lambda m: next(m.iter())[1]), ('copy+get', lambda m: m.copy().get('node0')),
+                                       # the object the caller passed to add() before finalizing
+                                       ('given-to-add', lambda m: given['node0'])):
                         try:
                             ent = fetch(mi)
                             ent.state = other
